@@ -68,6 +68,8 @@ struct UnsubCall {
 	conn: usize,
 	call_id: String,
 	target: String,
+	/// stamp at which the peer began to send it
+	sent: u64,
 }
 
 /// `k` in 0..100; the mix depends on whether the subscription is still pending
@@ -228,6 +230,9 @@ async fn scenario(prop: u32) {
 			*ss.lock().unwrap() = Some(rt::event("stopped-resolved", ""));
 		});
 	}
+	// runs with preemption points (hook H8, run parameter `preempt`)
+	let preempt_run = rt::param("preempt").is_some();
+	let mut eager: Option<(usize, String)> = None;
 	for step in &steps {
 		k += 1;
 		match step {
@@ -272,11 +277,44 @@ async fn scenario(prop: u32) {
 				}
 			}
 			Step::Cmd(which, cmd) => {
+				{
 				let reg = world.subs.lock().unwrap();
 				if !reg.is_empty() {
 					let ctl = &reg[which % reg.len()];
 					let pending = !ctl.events.lock().unwrap().iter().any(|e| e.what == "accept");
-					let _ = ctl.cmd.send(draw_cmd(*cmd, pending, &mut payload, clogged_mode));
+					let cmd = draw_cmd(*cmd, pending, &mut payload, clogged_mode);
+					let accepting = matches!(cmd, SubCmd::Accept | SubCmd::AcceptTimeout(_));
+					let _ = ctl.cmd.send(cmd);
+					if preempt_run && accepting && rt::chance("eager_unsubscribe", 1, 2) {
+						eager = Some((ctl.conn, ctl.sub_id.clone()));
+					}
+				}
+				}
+				// a client that unsubscribes the moment it holds the subscription id: wait (a bounded while) for the
+				// response that carries the id, then send the unsubscribe at once
+				if let Some((c, sub_id)) = eager.take() {
+					let want: Option<Value> = serde_json::from_str(&sub_id).ok();
+					let mut seen = false;
+					for round in 0..60 {
+						seen = conns[c].frames.lock().unwrap().iter().any(|f| f.v.get("id").and_then(|i| i.as_str()).is_some_and(|i| i.starts_with('s')) && f.v.get("result").is_some() && f.v.get("result") == want.as_ref());
+						if seen {
+							break;
+						}
+						if round % 12 == 11 {
+							tokio::time::sleep(Duration::from_millis(1)).await;
+						} else {
+							rt::yield_n(1).await;
+						}
+					}
+					if let (true, Some(tx)) = (seen, conns[c].tx.as_mut()) {
+						rt::probe("eager_unsubscribe");
+						let call_id = format!("u{k}");
+						let sent = rt::event("dir-unsubscribe", format!("c{c} {call_id} target={sub_id} (eager)"));
+						let msg = format!("{{\"jsonrpc\":\"2.0\",\"id\":\"{call_id}\",\"method\":\"unsub\",\"params\":[{sub_id}]}}");
+						if matches!(tokio::time::timeout(Duration::from_millis(200), world::ws_send(tx, msg.as_bytes(), false)).await, Ok(Ok(()))) {
+							unsub_calls.push(UnsubCall { conn: c, call_id, target: sub_id, sent });
+						}
+					}
 				}
 			}
 			Step::Unsubscribe(c, kind) => {
@@ -295,10 +333,10 @@ async fn scenario(prop: u32) {
 				};
 				if let (Some(t), Some(tx)) = (target, conns[*c].tx.as_mut()) {
 					let call_id = format!("u{k}");
-					rt::event("dir-unsubscribe", format!("c{c} {call_id} target={t}"));
+					let sent = rt::event("dir-unsubscribe", format!("c{c} {call_id} target={t}"));
 					let msg = format!("{{\"jsonrpc\":\"2.0\",\"id\":\"{call_id}\",\"method\":\"unsub\",\"params\":[{t}]}}");
 					if matches!(tokio::time::timeout(Duration::from_millis(200), world::ws_send(tx, msg.as_bytes(), false)).await, Ok(Ok(()))) {
-						unsub_calls.push(UnsubCall { conn: *c, call_id, target: t });
+						unsub_calls.push(UnsubCall { conn: *c, call_id, target: t, sent });
 					}
 				}
 			}
@@ -471,6 +509,14 @@ impl View<'_> {
 	}
 }
 
+/// The earliest instant at which the subscription can have become active: the return of `accept()`; in runs with
+/// preemption points (hook H8) `accept()` may be descheduled after it has registered the subscription, so there it
+/// is the call of `accept()`.
+fn active_from(s: &SubCtl) -> Option<u64> {
+	let preempt_run = rt::param("preempt").is_some();
+	s.events.lock().unwrap().iter().find(|e| e.what == "accept" && e.ok).map(|e| if preempt_run { e.invoked } else { e.returned })
+}
+
 fn accept_ok(s: &SubCtl) -> Option<u64> {
 	s.events.lock().unwrap().iter().find(|e| e.what == "accept" && e.ok).map(|e| e.returned)
 }
@@ -582,7 +628,7 @@ fn check_c04(v: &View) {
 			let mut close_at: Option<(u64, &str)> = None;
 			for u in v.unsub_calls.iter().filter(|u| u.conn == ci && u.target == s.sub_id) {
 				if let Some(e) = v.unsub_end(ci, &u.call_id) {
-					if e.response.as_deref().is_some_and(|r| r.contains("\"result\":true")) && accepted.is_some_and(|a| e.stamp > a) && close_at.is_none_or(|c| e.stamp < c.0) {
+					if e.response.as_deref().is_some_and(|r| r.contains("\"result\":true")) && active_from(s).is_some_and(|a| e.stamp > a) && close_at.is_none_or(|c| e.stamp < c.0) {
 						close_at = Some((e.stamp, "unsubscribe"));
 					}
 				}
@@ -686,14 +732,43 @@ fn check_c06(v: &View) {
 		let at = end.stamp;
 		// active subscriptions with that id on that connection at `at`
 		let mut expect = false;
+		let mut undecided = false;
+		let preempt_run = rt::param("preempt").is_some();
 		let mut why = String::from("unknown id");
 		for s in v.reg.iter().filter(|s| v.conn_of(s) == u.conn && s.sub_id == u.target) {
+			if expect {
+				// (an earlier holder of the id already decides it)
+				break;
+			}
 			let Some(acc) = accept_ok(s) else {
 				why = "never accepted".into();
 				continue;
 			};
+			let from = active_from(s).unwrap_or(acc);
+			// (an unsubscribe that ended before this subscription was accepted concerned an earlier holder of the id)
+			let unsubscribed_before = v.unsub_calls.iter().filter(|o| o.conn == u.conn && o.target == u.target && o.call_id != u.call_id).any(|o| v.unsub_end(o.conn, &o.call_id).is_some_and(|e| e.stamp < at && e.stamp > from && e.response.as_deref().is_some_and(|r| r.contains("\"result\":true"))));
 			if acc > at {
 				why = "not yet accepted".into();
+				// Runs with preemption points: `accept()` can be descheduled after it has queued the response, so the
+				// subscription becomes active somewhere between the call and the return of `accept()`. Inside that span
+				// the answer is owed to what the peer can know: a peer that held the accepting response before it sent
+				// the unsubscribe names an active subscription; one that guessed the id may get either answer.
+				if preempt_run {
+					let inv = s.events.lock().unwrap().iter().find(|e| e.what == "accept" && e.ok).map(|e| e.invoked);
+					if inv.is_some_and(|i| i < at) {
+						let released = *s.released.lock().unwrap();
+						let held = v.frames[u.conn].iter().any(|f| f.stamp < u.sent && f.v.get("id").and_then(|i| i.as_str()).is_some_and(|i| call_k(&format!("\"{i}\"")) == subscribe_k(&s.params)) && f.v.get("result").is_some());
+						if held && unsubscribed_before {
+							why = "already unsubscribed".into();
+						} else if held && !released.is_some_and(|r| r < at) {
+							expect = true;
+							why = format!("the peer held the accepting response before it sent the unsubscribe; accept() returned at #{acc}");
+							rt::probe("unsubscribe_inside_accept_span");
+						} else if !held {
+							undecided = true;
+						}
+					}
+				}
 				continue;
 			}
 			// ended before?
@@ -702,8 +777,6 @@ fn check_c06(v: &View) {
 				why = "handler already gone".into();
 				continue;
 			}
-			// (an unsubscribe that ended before this subscription was accepted concerned an earlier holder of the id)
-			let unsubscribed_before = v.unsub_calls.iter().filter(|o| o.conn == u.conn && o.target == u.target && o.call_id != u.call_id).any(|o| v.unsub_end(o.conn, &o.call_id).is_some_and(|e| e.stamp < at && e.stamp > acc && e.response.as_deref().is_some_and(|r| r.contains("\"result\":true"))));
 			if unsubscribed_before {
 				why = "already unsubscribed".into();
 				continue;
@@ -720,12 +793,18 @@ fn check_c06(v: &View) {
 		if v.reg.iter().any(|s| v.conn_of(s) != u.conn && s.sub_id == u.target) && !expect {
 			why = format!("{why}; id is live on another connection");
 		}
+		if undecided && !expect {
+			rt::probe("unsubscribe_undecided_in_accept_span");
+			continue;
+		}
 		match got {
 			Some(g) if g != expect => {
 				let sig = if why.contains("clone was dropped") {
 					"false-after-clone-drop"
 				} else if why.contains("another connection") {
 					"foreign-connection-id"
+				} else if expect && why.contains("held the accepting response") {
+					"false-for-active:inside-accept-span"
 				} else if expect {
 					"false-for-active"
 				} else {
@@ -743,10 +822,11 @@ fn check_c06(v: &View) {
 	for s in v.reg {
 		let ci = v.conn_of(s);
 		let Some(acc) = accept_ok(s) else { continue };
+		let from = active_from(s).unwrap_or(acc);
 		let evs = s.events.lock().unwrap();
 		for e in evs.iter().filter(|e| (e.what == "is_closed" || e.what == "closed-future") && e.ok) {
 			// closed reported: is there a cause before e.invoked?
-			let unsub = v.unsub_calls.iter().filter(|u| u.conn == ci && u.target == s.sub_id).any(|u| v.unsub_end(ci, &u.call_id).is_some_and(|x| x.stamp < e.returned && x.stamp > acc && x.response.as_deref().is_some_and(|r| r.contains("\"result\":true"))));
+			let unsub = v.unsub_calls.iter().filter(|u| u.conn == ci && u.target == s.sub_id).any(|u| v.unsub_end(ci, &u.call_id).is_some_and(|x| x.stamp < e.returned && x.stamp > from && x.response.as_deref().is_some_and(|r| r.contains("\"result\":true"))));
 			let conn_ending = v.peer_closed[ci].is_some_and(|p| p < e.returned) || v.stop_stamp.is_some_and(|p| p < e.returned) || v.conn_gone[ci].is_some_and(|p| p < e.returned);
 			if !unsub && !conn_ending && acc < e.invoked {
 				let clone_dropped = evs.iter().any(|x| x.what == "drop-clone" && x.returned < e.invoked);
